@@ -162,7 +162,10 @@ func loadContracts(ld *Loaded) (*Contracts, []string, error) {
 		}
 		fn := ld.findFunc(fc.Pkg, fc.Key)
 		if fn == nil {
-			return nil, warnings, fmt.Errorf("%s:%d: function %s not found in %s", fc.File, fc.Line, fc.Key, fc.Pkg)
+			// reported by the checks of the properties this contract belongs to, not by every check
+			fc.Missing = true
+			warnings = append(warnings, fmt.Sprintf("%s:%d: function %s not found in %s", fc.File, fc.Line, fc.Key, fc.Pkg))
+			continue
 		}
 		for _, p := range fn.Params {
 			fc.ParamTypes[p.Name()] = p.Type()
